@@ -21,7 +21,8 @@ class SimFS:
 
     def __init__(self, outdir: str):
         self.outdir = outdir.rstrip("/")
-        self.files: dict[str, str] = {}
+        self.files: dict[str, str] = {}   # decoded view of the output files (what the oracles read)
+        self.blobs: dict[str, bytes] = {}  # their bytes (what an r+ open sees)
         # only the parent of the output directory exists at first: the generator creates the rest
         self.dirs: set[str] = {_os.path.dirname(self.outdir)}
         # simulated locale encoding: what a text file opened *without* an explicit encoding gets
@@ -41,6 +42,7 @@ class SimFS:
     def wipe(self) -> None:
         """`--wipe-generated`: the output directory and everything below it disappear."""
         self.files.clear()
+        self.blobs.clear()
         self.dirs = {d for d in self.dirs if not (d == self.outdir or d.startswith(self.outdir + "/"))}
         for k in [k for k in self.mtimes if k == self.outdir or k.startswith(self.outdir + "/")]:
             del self.mtimes[k]
@@ -109,26 +111,34 @@ class SimFS:
                     raise FileNotFoundError(_errno.ENOENT, "No such file or directory", path)
                 self.write_opens[path] = self.write_opens.get(path, 0) + 1
                 self.files[path] = ""  # "w" truncates at open
-                return SimFile(self, path, "", truncate_first=True, encoding=enc)
+                self.blobs[path] = b""
+                return SimFile(self, path, b"", truncate_first=True, encoding=enc)
             if "+" in mode or "a" in mode:  # r+ : read/modify in place
                 self.site("wopen", path)
                 if path not in self.files:
                     raise FileNotFoundError(_errno.ENOENT, "No such file or directory", path)
                 self.write_opens[path] = self.write_opens.get(path, 0) + 1
-                return SimFile(self, path, self.files[path], truncate_first=False, encoding=enc)
+                return SimFile(self, path, self._bytes(path), truncate_first=False, encoding=enc)
             self.site("ropen", path)
             if path not in self.files:
                 raise FileNotFoundError(_errno.ENOENT, "No such file or directory", path)
-            return SimFile(self, path, self.files[path], truncate_first=False, readonly=True, encoding=enc)
+            return SimFile(self, path, self._bytes(path), truncate_first=False, readonly=True, encoding=enc)
         if self.in_vsrc(path):
             self.site("ropen", path)
             if path not in self.vsrc:
                 raise FileNotFoundError(_errno.ENOENT, "No such file or directory", path)
-            return SimFile(self, path, self.vsrc[path], truncate_first=False, readonly=True, encoding=enc)
+            return SimFile(self, path, self.vsrc[path].encode("utf-8"), truncate_first=False, readonly=True, encoding=enc)
         self.site("ropen", path)
         if "b" not in mode and not kwargs.get("encoding") and len(args) < 2:
             kwargs["encoding"] = self.locale_encoding  # a real open() would take the locale's encoding
         return SourceFile(self, open(file, mode, *args, **kwargs), path)
+
+    def _bytes(self, path: str) -> bytes:
+        """Bytes of an output file (files pre-populated by the harness as text are encoded)."""
+        b = self.blobs.get(path)
+        if b is None or b.decode("utf-8", errors="replace") != self.files[path]:
+            b = self.files[path].encode("utf-8")
+        return b
 
     def mkdir(self, path: str, exist_ok: bool, parents: bool = False) -> None:
         path = _os.path.normpath(path)
@@ -171,41 +181,42 @@ class SimFS:
             yield from self.walk(_os.path.join(top, d))
 
 
-class SimFile(io.StringIO):
-    """In-memory text file; content is committed to the SimFS at close (and partially on a
-    failed write, like a real torn write)."""
+class SimFile(io.TextIOWrapper):
+    """In-memory text file: a real `io.TextIOWrapper` over a `BytesIO`, so that encoding errors,
+    `truncate()` (bytes, not characters) and `seek()` behave exactly as on a real file. The bytes
+    are committed to the SimFS at close (and partially on a failed write, like a torn write)."""
 
-    def __init__(self, fs: SimFS, path: str, initial: str, truncate_first: bool, readonly: bool = False, encoding: str = "utf-8"):
-        super().__init__(initial)
+    def __init__(self, fs: "SimFS", path: str, initial: bytes, truncate_first: bool, readonly: bool = False, encoding: str = "utf-8"):
+        super().__init__(io.BytesIO(b"" if truncate_first else initial), encoding=encoding, newline=None if readonly else "", write_through=True)
         self.fs = fs
         self.path = path
         self.readonly = readonly
-        self.sim_encoding = encoding
-        if truncate_first:
-            self.seek(0)
+
+    def _commit(self) -> None:
+        self.flush()
+        data = self.buffer.getvalue()
+        self.fs.blobs[self.path] = data
+        self.fs.files[self.path] = data.decode("utf-8", errors="replace")
+        self.fs.mtimes[self.path] = self.fs.tick()
 
     def read(self, *a):
         self.fs.site("read", self.path)
-        data = super().read(*a)
-        data.encode("utf-8").decode(self.sim_encoding)  # what TextIOWrapper would do with these bytes
-        return data
+        return super().read(*a)
 
     def write(self, s):
         if self.readonly:
             raise io.UnsupportedOperation("not writable")
-        s.encode(self.sim_encoding)  # UnicodeEncodeError exactly where TextIOWrapper would raise it
         try:
             self.fs.site("write", self.path)
         except OSError:
             super().write(s[:len(s) // 2])  # torn write: half of the data made it
-            self.fs.files[self.path] = self.getvalue()
+            self._commit()
             raise
         return super().write(s)
 
     def close(self):
         if not self.closed and not self.readonly:
-            self.fs.files[self.path] = self.getvalue()
-            self.fs.mtimes[self.path] = self.fs.tick()
+            self._commit()
             super().close()
             self.fs.site("close", self.path)
             return
